@@ -61,14 +61,19 @@ impl FrameStore {
         if len == 0 {
             return None;
         }
-        if seq < self.base_seq {
-            return None;
+        // Fast path: consecutive seq values sit at `seq - base_seq`. Frames can arrive with
+        // gaps, repeats or from several streams, so the slot is only an answer when it really
+        // holds that seq; otherwise look for it.
+        if let Some(idx) = seq
+            .checked_sub(self.base_seq)
+            .and_then(|offset| usize::try_from(offset).ok())
+            .filter(|idx| *idx < len)
+        {
+            if self.frames[idx].seq == seq {
+                return Some(idx);
+            }
         }
-        let idx = usize::try_from(seq - self.base_seq).ok()?;
-        if idx >= len {
-            return None;
-        }
-        Some(idx)
+        self.frames.iter().position(|event| event.seq == seq)
     }
 }
 
